@@ -128,7 +128,7 @@ class Model:
         self.keys = list(keys)
         self.pos = 0
         self.proj = []            # list of index lists
-        self.state = "open"       # open | exhausted (soft closed) | closed (hard)
+        self.state = "open"       # open | at_end (open or soft closed) | exhausted (soft closed) | closed (hard) | unknown_end (soft or hard closed)
         self.uniq = None          # set of seen signatures, or None
         self.yield_per = None
 
@@ -378,8 +378,7 @@ def run_case(case):
                                 if got:
                                     want = take(len(got))
                                     check(i, op, got, want)
-                                    if not peek_unique(1):
-                                        model.state = "unknown_end"   # the driver-defined size may or may not have hit the end
+                                    # the driver-defined size may or may not have hit the end: "at_end" is set after the op
                                 elif ahead:
                                     V("wrong_rows", "fetchmany() returned no rows although %d remain (%s)" % (len(ahead), strat_name), op=i)
                                 else:
@@ -457,7 +456,10 @@ def run_case(case):
                             if got != want:
                                 V("wrong_rows", "%s() on %s view (%s, unique=%s) gave %r, list model %r"
                                   % (name, view, strat_name, model.uniq is not None, got, want), op=i)
-                            if model.state not in ("exhausted", "unknown_end"):
+                            if model.state == "at_end":
+                                # open -> hard-closed, already soft-closed -> stays soft-closed: either is documented behaviour
+                                model.state = "unknown_end"
+                            elif model.state not in ("exhausted", "unknown_end"):
                                 model.state = "closed"      # first()/one()/scalar() discard the rest and close the result
                             model.pos = len(model.rows)
                             out = got
@@ -510,9 +512,12 @@ def run_case(case):
                 trace.append([i, op, out])
                 if out not in (None, "closed", "skip", "unique", "stop", "ResourceClosedError", 0) and out != "[]":
                     delivered[0] += 1
-                # the DBAPI cursor is released no later than exhaustion / close
-                if model.state == "open" and model.pos >= len(model.rows) and op in ("partitions",) and not (n if k else model.yield_per):
-                    model.state = "unknown_end"
+                # Every deliverable row has been handed out but the caller has not been told about exhaustion yet: whether the
+                # result has already noticed the end (soft-closed itself: a driver fetch came back short/empty, rows were
+                # pre-buffered) or is still open is a buffering detail, not documented behaviour.  "at_end" = {open, soft-closed};
+                # it is never hard-closed, so ResourceClosedError is still a violation there.
+                if model.state == "open" and not peek_unique(1):
+                    model.state = "at_end"
                 if not viol and real_cursor is not None and model.state in ("exhausted", "closed") and not vs.get("merge"):
                     if not getattr(real_cursor, "closed", True):
                         V("cursor_left_open", "the DBAPI cursor is still open after the result was %s by %s (%s)" % (model.state, op, strat_name), op=i)
